@@ -335,7 +335,7 @@ func ruleSentinel(c *Ctx) {
 	asBool := p.Fn("lua", "LVAsBool")
 	// the sentinel: a package-level object (the pinned tree) or the per-state object kept in Global (F106);
 	// as a value: a load from that global, or (a MakeInterface of) a load of that field
-	sentinel, _ := p.SPkg("lua").Members["loopdetection"].(*ssa.Global)
+	sentinel := p.Global("lua", "loopdetection")
 	sentF := p.Field("lua", "Global", "loopDetection")
 	isSentinel := func(v ssa.Value) bool {
 		v = stripMI(v)
@@ -426,7 +426,7 @@ func ruleSentinel(c *Ctx) {
 			if in == in.Block().Instrs[0] {
 				conds := g.CondsAt(in.Block())
 				for _, cd := range conds {
-					if bb, ok := cd.V.(*ssa.BinOp); ok && bb.Op == token.EQL && !cd.Sense && (isSentinel(bb.X) || isSentinel(bb.Y)) {
+					if bb, ok := cd.V.(*ssa.BinOp); ok && neHolds(bb, cd) && (isSentinel(bb.X) || isSentinel(bb.Y)) {
 						// and not the negation of the same test earlier on the chain
 						return true
 					}
@@ -572,7 +572,7 @@ func ruleOrder(c *Ctx) {
 			for _, cd := range g.CondsAtInstr(cl) {
 				if b, ok := cd.V.(*ssa.BinOp); ok {
 					if k, isc := constInt(b.Y); isc && k == ltTable && strings.Contains(vkey(b.X), ".Type()") {
-						if (b.Op == token.NEQ && cd.Sense) || (b.Op == token.EQL && !cd.Sense) {
+						if (b.Op == token.NEQ && cd.Sense) || (neHolds(b, cd)) {
 							okGuard = true
 						}
 					}
